@@ -438,21 +438,41 @@ def key_of(path):
 
 
 class State:
-    __slots__ = ('pc', 'mem', 'env', 'cnt')
+    """pc is kept as a list of conjuncts so that merges can factor the common prefix (keeps terms small)"""
+    __slots__ = ('pcl', 'mem', 'env', 'cnt', '_pc')
     def __init__(s, pc, mem=None, env=None, cnt=None):
-        s.pc = pc; s.mem = mem if mem is not None else {}; s.env = env if env is not None else {}
+        if isinstance(pc, list): s.pcl = list(pc)
+        elif is_true(pc): s.pcl = []
+        else: s.pcl = [pc]
+        s._pc = None
+        s.mem = mem if mem is not None else {}; s.env = env if env is not None else {}
         s.cnt = cnt if cnt is not None else {}
-    def copy(s): return State(s.pc, dict(s.mem), dict(s.env), dict(s.cnt))
+    @property
+    def pc(s):
+        if s._pc is None: s._pc = mk_and(s.pcl)
+        return s._pc
+    @pc.setter
+    def pc(s, v):
+        s.pcl = [] if is_true(v) else [v]; s._pc = None
+    def extend(s, cond):
+        n = State(s.pcl, dict(s.mem), dict(s.env), dict(s.cnt))
+        if not is_true(cond): n.pcl.append(cond)
+        return n
+    def copy(s): return State(s.pcl, dict(s.mem), dict(s.env), dict(s.cnt))
 
 
 def merge_states(sts, ev):
-    """merge a list of states (disjoint path conditions)"""
-    sts = [s for s in sts if not is_false(s.pc)]
+    """merge a list of states (disjoint path conditions); the common prefix of their conjunct lists is factored"""
+    sts = [s for s in sts if not any(is_false(c) for c in s.pcl)]
     if not sts: return None
     if len(sts) == 1: return sts[0]
+    n = 0
+    m = min(len(s.pcl) for s in sts)
+    while n < m and all(s.pcl[n].eq(sts[0].pcl[n]) for s in sts[1:]): n += 1
+    common = sts[0].pcl[:n]
+    rests = [mk_and(s.pcl[n:]) for s in sts]
     out = sts[-1].copy()
-    for s in reversed(sts[:-1]):
-        c = s.pc
+    for s, c in zip(reversed(sts[:-1]), reversed(rests[:-1])):
         for k in set(out.env) | set(s.env):
             a = s.env.get(k); b = out.env.get(k)
             if a is None and b is None: continue
@@ -467,7 +487,10 @@ def merge_states(sts, ev):
         for k in set(out.cnt) | set(s.cnt):
             a = s.cnt.get(k, z3.IntVal(0)); b = out.cnt.get(k, z3.IntVal(0))
             out.cnt[k] = a if a.eq(b) else If(c, a, b)
-        out.pc = mk_or([s.pc, out.pc])
+    d = mk_or(rests)
+    if not (is_true(d) or is_false(d)):
+        d = simplify(d)
+    out.pcl = common + ([] if is_true(d) else [d]); out._pc = None
     return out
 
 
@@ -815,7 +838,7 @@ class Eval:
         f = s.mod.funcs[fname]
         st = st or State(BoolVal(True))
         caller_env = st.env
-        st = State(st.pc, st.mem, dict(zip([p for p, _ in f.params], args)), st.cnt)
+        st = State(st.pcl, st.mem, dict(zip([p for p, _ in f.params], args)), st.cnt)
         s.depth += 1
         if s.depth > s.inline_depth: raise Unsupported('inline depth exceeded at ' + fname)
         info = s.loops(f)
@@ -907,9 +930,8 @@ class Eval:
 
     def edge_state(s, f, src, tgt, st, cond):
         """state for edge src->tgt under cond with phi nodes of tgt evaluated from src"""
-        pc = mk_and([st.pc, cond])
-        if is_false(pc): return None
-        e = State(pc, dict(st.mem), dict(st.env), dict(st.cnt))
+        if is_false(cond) or any(is_false(c) for c in st.pcl): return None
+        e = st.extend(cond)
         vals = {}
         for ins in f.blocks[tgt]:
             if ins.op != 'phi': break
@@ -1111,7 +1133,7 @@ class Eval:
                 if t is None:
                     s.oblig.append((mk_and([st.pc, g]), BoolVal(False), 'call through NULL function pointer')); continue
                 name = t[0][3:]
-                sub = State(mk_and([st.pc, g]), dict(st.mem), {}, dict(st.cnt))
+                sub = State(st.pcl + ([] if is_true(g) else [g]), dict(st.mem), {}, dict(st.cnt))
                 rv = s.call_named(name, args, sub, ins, f)
                 results.append((rv, sub))
             if not results: raise Unsupported('indirect call without targets')
@@ -1301,6 +1323,38 @@ def dbl(x):
     return RealVal(str(fractions.Fraction(float(x))))
 
 
+def abstract_nl(fs):
+    """replace non-linear real multiplication / division by uninterpreted functions (sound for proving: unsat of the
+    abstraction implies unsat of the original). fs: list of formulas -> list of abstracted formulas"""
+    R = RealSort(); MUL = Function('nl_mul', R, R, R); DIV = Function('nl_div', R, R, R)
+    memo = {}
+    def num(x): return z3.is_rational_value(x) or z3.is_int_value(x) or z3.is_algebraic_value(x)
+    def walk(x):
+        k = x.get_id()
+        if k in memo: return memo[k]
+        if not z3.is_app(x) or x.num_args() == 0:
+            memo[k] = x; return x
+        ch = [walk(c) for c in x.children()]
+        kind = x.decl().kind()
+        if kind == z3.Z3_OP_MUL and is_real(x):
+            consts = [c for c in ch if num(c)]; others = [c for c in ch if not num(c)]
+            if len(others) >= 2:
+                others.sort(key=lambda c: c.get_id())
+                r = others[0]
+                for o in others[1:]: r = MUL(r, o)
+                for c in consts: r = c * r
+            else:
+                r = ch[0]
+                for c in ch[1:]: r = r * c
+        elif kind == z3.Z3_OP_DIV and is_real(x):
+            r = ch[0] / ch[1] if num(ch[1]) else DIV(ch[0], ch[1])
+        else:
+            try: r = x.decl()(*ch)
+            except Exception: r = x
+        memo[k] = r; return r
+    return [walk(simplify(f)) for f in fs]
+
+
 def _solve(claim, assumptions, axioms, timeout, tactic, want_model=True):
     sol = Solver() if tactic is None else z3.Tactic(tactic).solver()
     sol.set('timeout', int(timeout * 1000))
@@ -1357,8 +1411,16 @@ def hard(fn, timeout):
     except Exception as e: return ('unknown', 'result unreadable: %r' % e)
 
 
-def prove(claim, assumptions=(), axioms=(), timeout=60, tactic=None):
-    """returns ('proved', None) / ('refuted', model dict) / ('unknown', reason); hard wall-clock limit"""
+def prove(claim, assumptions=(), axioms=(), timeout=60, tactic=None, abstract=True):
+    """returns ('proved', None) / ('refuted', model dict) / ('unknown', reason); hard wall-clock limit.
+    Stage 1: non-linear products/quotients abstracted to uninterpreted functions (QF_UFLRA+BV): unsat there proves the
+    claim.  Stage 2: the exact query (z3 nlsat), which is also the only source of counterexamples."""
+    if abstract:
+        def stage1():
+            fs = abstract_nl(list(axioms) + list(assumptions) + [Not(claim)])
+            return _solve(None, fs, (), min(timeout, 30), None)
+        res, m = hard(stage1, min(timeout, 30))
+        if res == 'unsat': return 'proved', None
     res, m = hard(lambda: _solve(claim, assumptions, axioms, timeout, tactic), timeout)
     return {'unsat': 'proved', 'sat': 'refuted'}.get(res, 'unknown'), m
 
